@@ -3609,7 +3609,11 @@ func (self *TextExpr) EvaluateText(fieldToValue map[string]sutils.CValueEnclosur
 		return strconv.FormatInt(t.Unix(), 10), nil
 	case "ipmask":
 		mask := net.ParseIP(self.Param.RawString).To4()
-		ip := net.ParseIP(self.Val.StringExpr.RawString).To4()
+		ipStr, err := self.Val.EvaluateToString(fieldToValue)
+		if err != nil {
+			return "", utils.WrapErrorf(err, "TextExpr.EvaluateText: cannot evaluate the IP address for 'ipmask': %v", err)
+		}
+		ip := net.ParseIP(ipStr).To4()
 		if mask == nil || ip == nil {
 			return "", fmt.Errorf("TextExpr.EvaluateText: invalid mask or IP address for 'ipmask' operation")
 		}
